@@ -38,4 +38,7 @@ def run(rep, fb, tier):
     _pr5.rule_py_filtered_concatenate(rep)
     _pr5.rule_py_isinstance_shadow(rep)
     _pr5.rule_py_none_guard(rep)
+    from ..rules import binding as _bd
+    _bd.rule_exception_unthrown(rep, fb)
+    _bd.rule_pointer_export(rep, fb)
     rep.units = fb.units + ["src/awkward/operations/convert.py, highlevel.py, _util.py, partition.py (ast)"]
